@@ -247,7 +247,8 @@ async fn run_script(connect: bool, early: Vec<u8>, steps: Vec<String>) -> String
     for step in &steps {
         let mut t = Toks::new(step);
         let res = |r: edp_node::Result<()>| if r.is_ok() { "ok".to_string() } else { "err".to_string() };
-        match t.next() {
+        let step_name = t.next().to_string();
+        match step_name.as_str() {
             "spawn" => {
                 let log = Arc::new(Mutex::new(Vec::new()));
                 match node.spawn(Recorder { events: log.clone() }).await {
@@ -288,6 +289,44 @@ async fn run_script(connect: bool, early: Vec<u8>, steps: Vec<String>) -> String
                 let a = pid_arg(&mut t, &pids);
                 let b = pid_arg(&mut t, &pids);
                 out.push(res(node.link(&a, &b).await));
+            }
+            // the same operations toward a process on the connected node: <9.0> of creation 1 there
+            "rsend" | "rlink" | "runlink" | "rmonitor" | "rdemonitor" => {
+                let rname = if remote.is_empty() { "nobody@127.0.0.1".to_string() } else { remote.clone() };
+                let to = ExternalPid::new(Atom::new(rname), 9, 0, 1);
+                match step_name.as_str() {
+                    "rsend" => {
+                        let msg = read_term(&mut t);
+                        out.push(res(node.send(&to, msg).await));
+                    }
+                    "rlink" => {
+                        let a = pid_arg(&mut t, &pids);
+                        out.push(res(node.link(&a, &to).await));
+                    }
+                    "runlink" => {
+                        let a = pid_arg(&mut t, &pids);
+                        out.push(res(node.unlink(&a, &to).await));
+                    }
+                    "rmonitor" => {
+                        let a = pid_arg(&mut t, &pids);
+                        match node.monitor(&a, &to).await {
+                            Ok(r) => {
+                                out.push(format!("ref {}", term_str(&OwnedTerm::Reference(r.clone()))));
+                                refs.push(r);
+                            }
+                            Err(_) => {
+                                // keep the numbering of the script's references (a placeholder nobody uses)
+                                refs.push(erltf::types::ExternalReference::new(Atom::new("none@none"), 0, vec![0]));
+                                out.push("err".to_string());
+                            }
+                        }
+                    }
+                    _ => {
+                        let a = pid_arg(&mut t, &pids);
+                        let k: usize = t.next().trim_start_matches('#').parse().expect("ref index");
+                        out.push(res(node.demonitor(&a, &to, &refs[k]).await));
+                    }
+                }
             }
             "unlink" => {
                 let a = pid_arg(&mut t, &pids);
@@ -519,7 +558,22 @@ async fn run_script(connect: bool, early: Vec<u8>, steps: Vec<String>) -> String
                     }
                     last = n;
                 }
-                out.push(peer.as_ref().map_or(".".to_string(), |p| hex(&p.got.lock().unwrap())));
+                // the peer's name carries its port: print it as p00000@127.0.0.1 (ephemeral ports have five digits)
+                let mut bytes = peer.as_ref().map_or(Vec::new(), |p| p.got.lock().unwrap().clone());
+                let name = remote.as_bytes();
+                let canon = b"p00000@127.0.0.1";
+                if name.len() == canon.len() {
+                    let mut i = 0;
+                    while i + name.len() <= bytes.len() {
+                        if &bytes[i..i + name.len()] == name {
+                            bytes[i..i + name.len()].copy_from_slice(canon);
+                            i += name.len();
+                        } else {
+                            i += 1;
+                        }
+                    }
+                }
+                out.push(hex(&bytes));
             }
             other => panic!("bad node step {other}"),
         }
